@@ -112,7 +112,11 @@ impl HasGenValueInfo for ParserNode {
             }
             ParserNode::Arith(expr) => {
                 if expr.rs1 == Register::X0 && expr.rs2 == Register::X0 {
-                    Some((expr.rd.get(), AvailableValue::Constant(0)))
+                    // Not every operation gives 0 for two zero operands
+                    // (0 / 0 is -1 in RISC-V)
+                    self.inst()
+                        .math_op()
+                        .map(|op| (expr.rd.get(), AvailableValue::Constant(op.operate(0, 0))))
                 } else {
                     None
                 }
